@@ -339,6 +339,84 @@ class Crate:
         self.wr(rel, s[:m.start()] + new + s[m2.end():])
         self.log.append(('rewrite', rel, 'R15 x1 (%s: into_iter().map(|%s| ..).collect() written as the loop it denotes)' % (name, m.group(2))))
 
+    def all_loop(self, rel, ctx, name, invariant, nth=0):
+        """R17: `RECV.iter().skip(K).all(|V| EXPR)` on a slice -> the search loop it denotes:
+        `({ let mut vx_all = true; let mut vx_i: usize = K; while vx_all && vx_i < RECV.len() <invariant>
+            { let V = &RECV[vx_i]; if !(EXPR) { vx_all = false; } else { vx_i = vx_i + 1; } } vx_all })`
+        (Iterator::all is `true` iff the predicate holds for every remaining element and stops at the first that fails; EXPR is
+        required to be free of side effects -- checked syntactically: no `=`-assignment, no `?`, no macro call, no `mut`)."""
+        jb, be = self.body(rel, ctx, name, nth)
+        s = self.rd(rel)
+        m = re.compile(r'([A-Za-z_]\w*)\s*\.\s*iter\(\)\s*\.\s*skip\((\d+)\)\s*\.\s*all\(\|(\w+)\|\s*').search(s, jb, be)
+        guard = ''
+        if not m:
+            # same scan written with a range: `RECV[K..].iter().all(|V| EXPR)`; the range index panics when K > len, which the
+            # loop form would not, so the rewritten text carries that as an obligation
+            m = re.compile(r'([A-Za-z_]\w*)\[(\d+)\s*\.\.\s*\]\s*\.\s*iter\(\)\s*\.\s*all\(\|(\w+)\|\s*').search(s, jb, be)
+            if m:
+                guard = ' assert(%s <= %s.len());' % (m.group(2), m.group(1))
+        if not m:
+            raise AnchorLost('%s: iter().skip(K).all(..) lost in %s' % (rel, name))
+        po = s.rfind('(', m.start(), m.end())
+        pc = match_close(s, po, '(', ')')
+        expr = s[m.end():pc - 1].strip()
+        if re.search(r'[^=!<>]=[^=]|\?|\w!\s*\(|\bmut\b', expr):
+            raise AnchorLost('%s: predicate of all(..) in %s is not a pure expression (R17 does not apply)' % (rel, name))
+        recv, k, v = m.group(1), m.group(2), m.group(3)
+        new = ('({' + guard + ' let mut vx_all = true; let mut vx_i: usize = %s;\n            while vx_all && vx_i < %s.len()\n%s\n'
+               '            { let %s = &%s[vx_i]; if !(%s) { vx_all = false; } else { vx_i = vx_i + 1; } }\n            vx_all })'
+               % (k, recv, invariant.rstrip(), v, recv, expr))
+        self.wr(rel, s[:m.start()] + new + s[pc:])
+        self.log.append(('rewrite', rel, 'R17 x1 (%s: %s.iter().skip(%s).all(|%s| ..) written as the search loop it denotes)' % (name, recv, k, v)))
+
+    def rev_zip_all_loop(self, rel, ctx, name, field, invariant, nth=0):
+        """R18: `A.iter().rev().zip(B.iter().rev()).all(|(O, S)| EXPR)` where `iter()` is `Name::iter` (under contract: the slice
+        iterator of `.FIELD`) -> the backwards pairwise search loop it denotes:
+        `({ let mut vx_all = true; let mut vx_k: usize = 0; while vx_all && vx_k < A.FIELD.len() && vx_k < B.FIELD.len() <invariant>
+            { let O = &A.FIELD[A.FIELD.len() - 1 - vx_k]; let S = &B.FIELD[B.FIELD.len() - 1 - vx_k];
+              if !(EXPR) { vx_all = false; } else { vx_k = vx_k + 1; } } vx_all })`
+        (zip stops with the shorter side; rev of a slice iterator walks from the last element; all stops at the first pair that
+        fails; EXPR must be a pure expression -- same syntactic test as R17)."""
+        jb, be = self.body(rel, ctx, name, nth)
+        s = self.rd(rel)
+        m = re.compile(r'([A-Za-z_]\w*)\s*\.\s*iter\(\)\s*\.\s*rev\(\)\s*\.\s*zip\(\s*([A-Za-z_]\w*)\s*\.\s*iter\(\)\s*\.\s*rev\(\)\s*\)\s*\.\s*all\(\|\((\w+),\s*(\w+)\)\|\s*').search(s, jb, be)
+        if not m:
+            raise AnchorLost('%s: iter().rev().zip(iter().rev()).all(..) lost in %s' % (rel, name))
+        po = s.rfind('(', m.start(), m.end() - 1)
+        po = s.rfind('all(', m.start(), m.end()) + 3
+        pc = match_close(s, po, '(', ')')
+        expr = s[m.end():pc - 1].strip()
+        if re.search(r'[^=!<>]=[^=]|\?|\w!\s*\(|\bmut\b', expr):
+            raise AnchorLost('%s: predicate of all(..) in %s is not a pure expression (R18 does not apply)' % (rel, name))
+        a, b, o, sv = m.group(1), m.group(2), m.group(3), m.group(4)
+        A, B = '%s.%s' % (a, field), '%s.%s' % (b, field)
+        new = ('({ let mut vx_all = true; let mut vx_k: usize = 0;\n            while vx_all && vx_k < %s.len() && vx_k < %s.len()\n%s\n'
+               '            { let %s = &%s[%s.len() - 1 - vx_k]; let %s = &%s[%s.len() - 1 - vx_k]; if !(%s) { vx_all = false; } else { vx_k = vx_k + 1; } }\n            vx_all })'
+               % (A, B, invariant.rstrip(), o, A, A, sv, B, B, expr))
+        self.wr(rel, s[:m.start()] + new + s[pc:])
+        self.log.append(('rewrite', rel, 'R18 x1 (%s: %s.iter().rev().zip(%s.iter().rev()).all(|(%s, %s)| ..) written as the backwards pairwise loop it denotes)' % (name, a, b, o, sv)))
+
+    def iter_last(self, rel, ctx, name, field, nth=0):
+        """R19: `X.iter().last()` where `iter()` is `Name::iter` (under contract: the slice iterator of `.FIELD`) ->
+        `X.FIELD.as_slice().last()` (the last item of a slice iterator is the slice's last element, None when empty)."""
+        jb, be = self.body(rel, ctx, name, nth)
+        s = self.rd(rel)
+        m = re.compile(r'([A-Za-z_]\w*)\s*\.\s*iter\(\)\s*\.\s*last\(\)').search(s, jb, be)
+        if not m:
+            raise AnchorLost('%s: iter().last() lost in %s' % (rel, name))
+        rep = '%s.%s.as_slice().last()' % (m.group(1), field)
+        s = s[:m.start()] + rep + s[m.end():]
+        be = be + len(rep) - (m.end() - m.start())
+        # byte-string literals of the body written as the array literals they denote (Verus gives `b"..."` no value)
+        def lit(mm):
+            bs = mm.group(1)
+            if '\\' in bs:
+                raise AnchorLost('%s: escaped byte-string literal in %s (R19 does not apply)' % (rel, name))
+            return '[' + ', '.join('%du8' % ord(ch) for ch in bs) + '].as_slice()'
+        s = s[:jb] + re.sub(r'b"([^"]*)"', lit, s[jb:be]) + s[be:]
+        self.wr(rel, s)
+        self.log.append(('rewrite', rel, 'R19 x1 (%s: %s.iter().last() written as %s.%s.as_slice().last())' % (name, m.group(1), m.group(1), field)))
+
     def enumerate_to_counter(self, rel, ctx, name, nth=0):
         """R3: `for (I, V) in X.enumerate() { BODY }` -> `let mut I = 0usize; for V in X { BODY I += 1; }`
         (side condition: BODY has no `continue`, so the counter is incremented exactly once per iteration)."""
